@@ -12,6 +12,12 @@ candidates are inserted in non-decreasing order of their begin position.
 A *covering sequence* is `ws` with `IsChain F bos ws` (every word a candidate, each beginning where
 the previous ended, the first at 0) and `lastEnd bos ws = len`; its cost `chainCost conn bos ws`
 is the sum of word costs plus connection costs including the BOS and EOS connections.
+
+Back-pointers: the model recomputes the pointer of a node by `Vit.argmin` on the finished lattice
+instead of storing it at insertion (`argmin_spec`, `stored_total_is_connect`: same value);
+`Vit.bestPath` follows the pointers from EOS (`fill_top_path`).  `viterbi_path`, `total_prefix`,
+`path_contiguous` are the theorems about the returned chain; `*_exec` restate them for the
+vector-of-rows lattice the driver executes.
 -/
 namespace C02
 open Vit
@@ -65,6 +71,164 @@ theorem disconnected_iff (F : List Node) (hwf : WF F) (hs : F.Pairwise (fun a b 
       obtain ⟨ws, h1, h2, _⟩ := eos_attained conn F hwf hs len v hres
       exact absurd ⟨ws, h1, h2⟩ h
 
+/-! ## back-pointers: the returned path (`connect_node` index half, `fill_top_path`, `resolve_best_path`) -/
+
+/-- **Back-pointer of `connect_node`.**  `argmin` (the `(prev_idx, min_cost)` pair of the Rust loop)
+reports a position iff `connect` reports a cost, and it is the same cost; the position holds a
+connected entry `(m, t)` with `v = t + conn m.r n.l + n.c`; no entry of the row offers less and every
+EARLIER entry offers strictly more, i.e. `i` is the first index attaining the minimum (strict `<`). -/
+theorem argmin_spec (row : List Entry) (n : Node) (v : Int) :
+    ((∃ i, argmin conn row n = some (i, v)) ↔ connect conn row n = some v) ∧
+    ∀ i, argmin conn row n = some (i, v) →
+      ∃ m t, row[i]? = some (m, some t) ∧ v = t + conn m.r n.l + n.c ∧
+        (∀ (j : Nat) (m' : Node) (t' : Int), row[j]? = some (m', some t') → v ≤ t' + conn m'.r n.l + n.c) ∧
+        (∀ (j : Nat) (m' : Node) (t' : Int), j < i → row[j]? = some (m', some t') → v < t' + conn m'.r n.l + n.c) := by
+  refine ⟨⟨?_, connect_argmin conn row n v⟩, ?_⟩
+  · rintro ⟨i, hi⟩; rw [← argmin_connect, hi]; rfl
+  · intro i hi
+    obtain ⟨⟨m, t, hg, hv⟩, hmin, hfirst⟩ := argmin_some conn row n i v hi
+    exact ⟨m, t, hg, hv, fun j m' t' hj => hmin j _ ⟨m', t', hj, rfl⟩,
+      fun j m' t' hlt hj => hfirst j _ hlt ⟨m', t', hj, rfl⟩⟩
+
+/-- **Stored totals are `connect_node` over the FINAL rows.**  In the fully built lattice every stored
+entry `(n, t)` other than BOS has `t = connect conn (rows n.b) n` where `rows` is the finished lattice:
+the row at `n.b` did not change after `n` was inserted (insertion order).  Hence recomputing the
+back-pointer by `argmin` on the finished lattice gives the pointer `insert` stored. -/
+theorem stored_total_is_connect (F : List Node) (hwf : WF F) (hs : F.Pairwise (fun a b => a.b ≤ b.b))
+    (e : Nat) (n : Node) (t : Option Int) (h : (n, t) ∈ build conn F init e) (hn : n ≠ bos) :
+    t = connect conn (build conn F init n.b) n :=
+  stored_total conn F hwf (ordered_of_sorted F hwf hs) e (n, t) h hn
+
+/-- **The returned path** (`viterbi_path` of DESIGN §3 C02).  When EOS is connected with cost `v`, the
+chain obtained by following the back-pointers from EOS is a covering sequence of candidates (each a
+candidate, the first beginning at 0, each beginning where the previous one ended, the last ending at
+`len`) and its recomputed cost, BOS and EOS connections included, is exactly `v` — so by
+`no_cheaper_covering` it is a minimum-cost covering sequence.  Termination of `fill_top_path`: the
+walk reaches BOS within `len + 1` steps; any larger fuel returns the same path. -/
+theorem viterbi_path (F : List Node) (hwf : WF F) (hs : F.Pairwise (fun a b => a.b ≤ b.b))
+    (len : Nat) (v : Int) (h : eosCost conn (build conn F init) len = some v) :
+    IsChain F bos (bestPath conn (build conn F init) len) ∧
+    lastEnd bos (bestPath conn (build conn F init) len) = len ∧
+    chainCost conn bos (bestPath conn (build conn F init) len) = v ∧
+    ∀ fuel, len + 1 ≤ fuel →
+      pathFrom conn (build conn F init) fuel (eosNode len) [] = bestPath conn (build conn F init) len := by
+  have hord := ordered_of_sorted F hwf hs
+  obtain ⟨done', hinv, _⟩ := build_inv conn F hwf hord
+  have hst := stored_total conn F hwf hord
+  have hp := pathFrom_spec conn F hwf (build conn F init) done' hinv hst len v (len + 1) (eosNode len) []
+    (by simp [eosNode]) ⟨v, h⟩ (by
+      intro m t hmem hc
+      have hme := (hinv.sound _ (m, some t) hmem).1
+      simp only [eosNode] at hme hc
+      have hc' : eosCost conn (build conn F init) len = some (t + conn m.r 0 + 0) := hc
+      rw [h] at hc'
+      simp only [Option.some.injEq] at hc'
+      exact ⟨trivial, hme, by simp only [chainCost]; omega, trivial⟩)
+  refine ⟨hp.1, hp.2.1, hp.2.2.1, ?_⟩
+  intro fuel hf
+  obtain ⟨d, rfl⟩ := Nat.exists_eq_add_of_le hf
+  exact pathFrom_fuel conn F hwf _ (fun e ent he => ⟨(hinv.sound e ent he).1, (hinv.sound e ent he).2.1⟩)
+    (eosNode len) [] (len + 1) (by simp [eosNode]) d
+
+/-- **Cumulative costs along the returned path** (`total_prefix`; what `Morpheme::total_cost` reports in
+mode C).  For every prefix `p₁ ++ [n]` of the returned path, the node `n` is stored in the lattice with
+the total `prefixCost conn bos (p₁ ++ [n])` = word costs + connection costs from BOS up to and
+including `n`, WITHOUT the connection to EOS; and every entry stored for `n` carries that total. -/
+theorem total_prefix (F : List Node) (hwf : WF F) (hs : F.Pairwise (fun a b => a.b ≤ b.b))
+    (len : Nat) (v : Int) (h : eosCost conn (build conn F init) len = some v)
+    (p₁ p₂ : List Node) (n : Node) (hp : bestPath conn (build conn F init) len = p₁ ++ n :: p₂) :
+    (n, some (prefixCost conn bos (p₁ ++ [n]))) ∈ build conn F init n.e ∧
+    ∀ t, (n, t) ∈ build conn F init n.e → t = some (prefixCost conn bos (p₁ ++ [n])) := by
+  have hord := ordered_of_sorted F hwf hs
+  obtain ⟨done', hinv, _⟩ := build_inv conn F hwf hord
+  have hst := stored_total conn F hwf hord
+  have hpath := pathFrom_spec conn F hwf (build conn F init) done' hinv hst len v (len + 1) (eosNode len) []
+    (by simp [eosNode]) ⟨v, h⟩ (by
+      intro m t hmem hc
+      have hme := (hinv.sound _ (m, some t) hmem).1
+      simp only [eosNode] at hme hc
+      have hc' : eosCost conn (build conn F init) len = some (t + conn m.r 0 + 0) := hc
+      rw [h] at hc'
+      simp only [Option.some.injEq] at hc'
+      exact ⟨trivial, hme, by simp only [chainCost]; omega, trivial⟩)
+  have htight : Tight conn (build conn F init) bos 0 (p₁ ++ n :: p₂) := by
+    have := hpath.2.2.2; unfold bestPath at hp; rw [hp] at this; exact this
+  have hmem := tight_prefix conn (build conn F init) n p₂ p₁ bos 0 htight
+  simp only [Int.zero_add] at hmem
+  have hnF : n ∈ F := by
+    have hc := hpath.1; unfold bestPath at hp; rw [hp] at hc
+    exact isChain_mem F _ bos hc n (by simp)
+  have hne : n ≠ bos := by
+    intro hc; have := hwf n hnF; rw [hc] at this; simp [bos] at this
+  refine ⟨hmem, ?_⟩
+  intro t ht
+  have e1 : t = connect conn (build conn F init n.b) n := hst n.e (n, t) ht hne
+  have e2 : some (prefixCost conn bos (p₁ ++ [n])) = connect conn (build conn F init n.b) n :=
+    hst n.e (n, some _) hmem hne
+  rw [e1, e2]
+
+/-- the complete path cost is the cumulative cost of the last word plus its connection to EOS -/
+theorem path_cost_is_last_total_plus_eos (F : List Node) (hwf : WF F) (hs : F.Pairwise (fun a b => a.b ≤ b.b))
+    (len : Nat) (v : Int) (h : eosCost conn (build conn F init) len = some v) :
+    v = prefixCost conn bos (bestPath conn (build conn F init) len) +
+        conn (lastNode bos (bestPath conn (build conn F init) len)).r 0 := by
+  rw [← chainCost_prefix, (viterbi_path conn F hwf hs len v h).2.2.1]
+
+/-- **Contiguity of the returned path** (`path_contiguous` of DESIGN §3 C01), in the form
+`C01.surfaces_partition` consumes.  `tab` is any non-decreasing table indexed by character position
+with `len < tab.length` (the character→byte table `mod_c2b` of `resolve_best_path`:
+`byte_end = to_curr_byte_idx(node.end())`).  The nodes start at 0, each begins where the previous one
+ended, ends strictly increase, the last ends at `len`; consequently the byte ends
+`cuts = path.map (tab[·.e])` form a non-decreasing chain from `tab[0]` to `tab[len]` and every table
+access is in range. -/
+theorem path_contiguous (F : List Node) (hwf : WF F) (hs : F.Pairwise (fun a b => a.b ≤ b.b))
+    (len : Nat) (v : Int) (h : eosCost conn (build conn F init) len = some v)
+    (tab : List Nat) (htab : tab.Pairwise (· ≤ ·)) (hlen : len < tab.length) :
+    let p := bestPath conn (build conn F init) len
+    IsChain F bos p ∧ lastEnd bos p = len ∧ p.Pairwise (fun a b => a.e < b.e) ∧
+    (((tab[0]?).getD 0) :: p.map (fun n => (tab[n.e]?).getD 0)).Pairwise (· ≤ ·) ∧
+    (((tab[0]?).getD 0) :: p.map (fun n => (tab[n.e]?).getD 0)).getLast (by simp) = (tab[len]?).getD 0 ∧
+    ∀ n ∈ p, n.e < tab.length := by
+  intro p
+  obtain ⟨h1, h2, _, _⟩ := viterbi_path conn F hwf hs len v h
+  obtain ⟨c1, c2, c3⟩ := chain_cuts F hwf tab htab p h1 (by rw [h2]; exact hlen)
+  refine ⟨h1, h2, (chain_ends F hwf p bos h1).2.1, ?_, ?_, c3⟩
+  · simpa [bos] using c1
+  · rw [h2] at c2; simpa [bos] using c2
+
+/-! ### the same statements about the executed vector-of-rows lattice (`buildL`, what `vdriver` runs) -/
+
+/-- the rows the driver computes are the rows the theorems speak about -/
+theorem exec_rows (F : List Node) : rowAt (buildL conn F initL) = build conn F init := by
+  rw [rowAt_buildL, rowAt_initL]
+
+/-- `viterbi_path` for the executed lattice -/
+theorem viterbi_path_exec (F : List Node) (hwf : WF F) (hs : F.Pairwise (fun a b => a.b ≤ b.b))
+    (len : Nat) (v : Int) (h : eosCost conn (rowAt (buildL conn F initL)) len = some v) :
+    IsChain F bos (bestPath conn (rowAt (buildL conn F initL)) len) ∧
+    lastEnd bos (bestPath conn (rowAt (buildL conn F initL)) len) = len ∧
+    chainCost conn bos (bestPath conn (rowAt (buildL conn F initL)) len) = v := by
+  rw [exec_rows] at h ⊢
+  obtain ⟨h1, h2, h3, _⟩ := viterbi_path conn F hwf hs len v h
+  exact ⟨h1, h2, h3⟩
+
+/-- `total_prefix` and `stored_total_is_connect` for the executed lattice -/
+theorem total_prefix_exec (F : List Node) (hwf : WF F) (hs : F.Pairwise (fun a b => a.b ≤ b.b))
+    (len : Nat) (v : Int) (h : eosCost conn (rowAt (buildL conn F initL)) len = some v)
+    (p₁ p₂ : List Node) (n : Node) (hp : bestPath conn (rowAt (buildL conn F initL)) len = p₁ ++ n :: p₂) :
+    (n, some (prefixCost conn bos (p₁ ++ [n]))) ∈ rowAt (buildL conn F initL) n.e ∧
+    (∀ t, (n, t) ∈ rowAt (buildL conn F initL) n.e → t = some (prefixCost conn bos (p₁ ++ [n]))) ∧
+    connect conn (rowAt (buildL conn F initL) n.b) n = some (prefixCost conn bos (p₁ ++ [n])) := by
+  rw [exec_rows] at h hp ⊢
+  obtain ⟨h1, h2⟩ := total_prefix conn F hwf hs len v h p₁ p₂ n hp
+  refine ⟨h1, h2, ?_⟩
+  have hnF : n ∈ F := by
+    have hc := (viterbi_path conn F hwf hs len v h).1; rw [hp] at hc
+    exact isChain_mem F _ bos hc n (by simp)
+  have hne : n ≠ bos := by
+    intro hc; have := hwf n hnF; rw [hc] at this; simp [bos] at this
+  exact (stored_total_is_connect conn F hwf hs n.e n _ h1 hne).symm
+
 /-- non-vacuity: three positions, five overlapping candidates, a negative word cost and negative connection costs -/
 example :
     let conn : Nat → Nat → Int := fun a b => (3 : Int) * a - 2 * b
@@ -73,5 +237,27 @@ example :
     eosCost conn (build conn F init) 3 = some (-1) ∧
     chainCost conn bos [⟨0, 2, 2, 2, -3⟩, ⟨2, 3, 2, 1, 1⟩] = -1 := by
   refine ⟨by intro n hn; simp at hn; rcases hn with rfl | rfl | rfl | rfl | rfl <;> decide, by decide, by decide, by decide⟩
+
+/-- non-vacuity of the path theorems on the same lattice (executed vector-of-rows version): the
+back-pointer walk returns the optimal chain `[0..2, 2..3]`; the totals stored along it are the prefix
+sums `(0 - 4) - 3 = -7` and `-7 + (6 - 4) + 1 = -4`; with the EOS connection `3 - 0` the path costs
+`-1`; and the tie rule of `argmin` picks the FIRST minimal connected entry -/
+example :
+    let conn : Nat → Nat → Int := fun a b => (3 : Int) * a - 2 * b
+    let F : List Node := [⟨0, 1, 1, 1, 5⟩, ⟨0, 2, 2, 2, -3⟩, ⟨1, 2, 3, 3, 4⟩, ⟨1, 3, 1, 2, 7⟩, ⟨2, 3, 2, 1, 1⟩]
+    bestPath conn (rowAt (buildL conn F initL)) 3 = [⟨0, 2, 2, 2, -3⟩, ⟨2, 3, 2, 1, 1⟩] ∧
+    prefixCost conn bos [⟨0, 2, 2, 2, -3⟩] = -7 ∧
+    prefixCost conn bos [⟨0, 2, 2, 2, -3⟩, ⟨2, 3, 2, 1, 1⟩] = -4 ∧
+    rowAt (buildL conn F initL) 2 = [(⟨0, 2, 2, 2, -3⟩, some (-7)), (⟨1, 2, 3, 3, 4⟩, some 4)] ∧
+    -- ties: two entries offering the same cost, the first one is the back-pointer
+    argmin (fun _ _ => 0) [(⟨0, 1, 0, 0, 0⟩, some 5), (⟨0, 1, 1, 1, 0⟩, none), (⟨0, 1, 2, 2, 0⟩, some 3),
+      (⟨0, 1, 3, 3, 0⟩, some 3)] ⟨1, 2, 0, 0, 1⟩ = some (2, 4) := by
+  refine ⟨by decide, by decide, by decide, by decide, by decide⟩
+
+/-- non-vacuity of `path_contiguous`: a character→byte table of a three-character text (1+3+2 bytes) -/
+example : [0, 1, 4, 6].Pairwise (· ≤ ·) ∧ 3 < [0, 1, 4, 6].length ∧
+    ([⟨0, 2, 2, 2, -3⟩, ⟨2, 3, 2, 1, 1⟩] : List Node).map (fun n => ([0, 1, 4, 6][n.e]?).getD 0) = [4, 6] := by
+  refine ⟨by decide, by decide, by decide⟩
+
 
 end C02
